@@ -60,6 +60,10 @@ def matrix(ctx):
              currents={"source": 4.0, "drain": -2.0, "top": -2.0}, adaptive=False, solve_time=0.1, k=3),
         dict(label="history/bar/translate-in-place", func="history_run", history="translate", dev="bar", mel=0.8,
              currents={"source": 3.0, "drain": -3.0}, field=0.3, adaptive=False, solve_time=0.15, k=3),
+        dict(label="history/tee/second-solve()-on-one-TDGLSolver/constant-currents", func="history_run", history="second-solve", dev="tee", mel=0.8,
+             currents={"source": 4.0, "drain": -2.0, "top": -2.0}, field=0.2, adaptive=False, solve_time=0.12, k=3),
+        dict(label="history/cross/second-solve()-on-one-TDGLSolver/ramped-currents", func="history_run", history="second-solve", dev="cross", mel=0.8,
+             currents={"source": 4.0, "drain": -2.0, "top": -1.0, "bottom": -1.0}, current_ramp=0.1, adaptive=True, solve_time=0.2, k=3),
         dict(label="history/tee/rotate-90-then-mesh", func="history_run", history="rotate", dev="tee", mel=0.8, mel2=0.6,
              currents={"source": 4.0, "drain": -2.0, "top": -2.0}, adaptive=False, solve_time=0.15, k=3),
     ]
